@@ -235,6 +235,16 @@ fn variants(prop: &str, g: &Generated, base_rep: &RunReport, cap: usize) -> Vec<
             }
         }
         "C03" => {
+            // ... and when the replacement iterator of a splice misreports its length or panics
+            // (surplus or missing items must not become duplicates or dead-but-reachable values)
+            if g.scn.steps[fs].op == Op::Splice {
+                for d in [-1, 1] {
+                    add(F_LEN_LIE, 0, d);
+                }
+                for k in spread(fc.nexts, 1) {
+                    add(F_NEXT_PANIC, k as u32, 0);
+                }
+            }
             // exactly-once destruction also when a destructor or a clone panics half-way
             for k in spread(fc.drops, (cap * 2 / 3).max(1)) {
                 add(F_DROP_PANIC, k as u32, 0);
